@@ -335,6 +335,27 @@ func Run(cs Case, c *vrt.Ctx) {
 	if !same(first, second) {
 		c.Fail("nondeterministic", "Plan.Execute", fmt.Sprintf("first %s second %s; %s", show(first), show(second), ctx), tags...)
 	}
+	// a plan is a value that can be executed any number of times: after a run on another root (the
+	// same document with every leaf of $.src changed) a run on this root gives what a new plan gives
+	{
+		var p *asm.Plan
+		vrt.Catch(func() { p = asm.NewPlan(freshPlan(cs)) })
+		if p != nil {
+			other := freshRoot(cs)
+			other["src"] = varied(other["src"])
+			if o := run(p, other); o.panic == "" {
+				again := run(p, freshRoot(cs))
+				if !same(first, again) {
+					w, g := window(show(first), show(again))
+					t := tags
+					if planHasContainerLiteral(plan) {
+						t = append(append([]string{}, tags...), "container-literal-in-plan")
+					}
+					c.Fail("second-execution-differs", "Plan.Execute", fmt.Sprintf("a new plan gives …%s… the same plan after a run on another root gives …%s…; %s", w, g, ctx), t...)
+				}
+			}
+		}
+	}
 	// documented semantics
 	if refOpen == "" {
 		switch {
@@ -403,6 +424,51 @@ func Run(cs Case, c *vrt.Ctx) {
 		w, g := window(show(first), show(fourth))
 		c.Fail("string-round-trip", "Plan.String", fmt.Sprintf("original …%s… rebuilt …%s…; text %s; %s", w, g, clip(text), ctx), tags...)
 	}
+}
+
+// varied gives the same shape with every leaf changed.
+func varied(v any) any {
+	switch tv := v.(type) {
+	case map[string]any:
+		out := map[string]any{}
+		for k, e := range tv {
+			out[k] = varied(e)
+		}
+		return out
+	case []any:
+		out := make([]any, len(tv))
+		for i, e := range tv {
+			out[len(tv)-1-i] = varied(e)
+		}
+		return out
+	case int64:
+		return tv + 1
+	case float64:
+		return tv + 0.5
+	case string:
+		return tv + "~"
+	case bool:
+		return !tv
+	}
+	return v
+}
+
+// planHasContainerLiteral: a map, or an array that is not a call, somewhere in the plan.
+func planHasContainerLiteral(plan any) bool {
+	switch tv := plan.(type) {
+	case map[string]any:
+		return true
+	case []any:
+		if _, _, ok := isCall(tv); !ok {
+			return true
+		}
+		for _, e := range tv {
+			if planHasContainerLiteral(e) {
+				return true
+			}
+		}
+	}
+	return false
 }
 
 // window cuts both strings around their first difference.
@@ -577,6 +643,10 @@ func (g *gen) expr(kind string, depth int) any {
 		case 8:
 			return []any{"nth", g.arg("list", depth-1), g.arg("int", depth-1)}
 		default:
+			if rapid.IntRange(0, 3).Draw(g.t, "builtpath") == 0 {
+				// a path put together when the step runs, from a name found in the data
+				return []any{"get", []any{pick(g.t, []string{"root", "at"}, "builder"), "src", pick(g.t, []string{"$.src.pick", "$.src.keys[0]", "$.src.keys[-1]"}, "part")}}
+			}
 			return []any{"get", pick(g.t, srcInts, "getpath")}
 		}
 	case "float":
@@ -719,7 +789,10 @@ func (g *gen) expr(kind string, depth int) any {
 		case 5:
 			// the function works on a local value per element: bodies that keep something in a
 			// scratch member and read it back, some under another result key
-			switch rapid.IntRange(0, 4).Draw(g.t, "eachbody") {
+			switch rapid.IntRange(0, 5).Draw(g.t, "eachbody") {
+			case 5:
+				// the element names a member: the path is put together anew for every element
+				return []any{"each", pick(g.t, []any{"$.src.keys", []any{"list", "i2", "i1", "i2", "b1"}}, "names"), []any{"set", "@.out", []any{"get", []any{"root", "src", "@.src"}}}, "out"}
 			case 0:
 				return []any{"each", g.arg("list", depth-1), []any{"asm", []any{"set", "@.asm", []any{"get", "@.prev"}}, []any{"set", "@.prev", "@.src"}}}
 			case 1:
@@ -831,6 +904,9 @@ func drawRoot(t *rapid.T) map[string]any {
 		"mn1":   map[string]any{"a": nil, "b": int64(1)},
 		"mn2":   map[string]any{"b": int64(1), "c": int64(2)},
 		"deep":  map[string]any{"a": map[string]any{"n": int64(4), "s": "deep"}, "l": []any{int64(1)}},
+		// names of members, for paths that a plan puts together from the data
+		"pick": pick(t, []string{"i1", "i2", "i1"}, "pick"),
+		"keys": []any{pick(t, []string{"i1", "i2"}, "key0"), "i2", pick(t, []string{"i1", "i2", "b1"}, "key2")},
 	}
 	n := rapid.IntRange(0, 4).Draw(t, "nints")
 	ints := []any{}
